@@ -367,6 +367,8 @@ def compute_burst_fraction(df_samples, sig, fs, f_range, amp_threshes=(1, 2),
     check_param_range(fs, 'fs', (0, np.inf))
     check_param_range(amp_threshes[0], 'lower amp_threshes', (0, amp_threshes[1]))
     check_param_range(amp_threshes[1], 'upper amp_threshes', (amp_threshes[0], np.inf))
+    if min_n_cycles is not None:
+        check_param_range(min_n_cycles, 'min_n_cycles', (0, np.inf))
 
     filter_kwargs = {} if filter_kwargs is None else filter_kwargs
 
